@@ -141,3 +141,78 @@ func init() {
 		c.R.Count("fault/"+in["at"]+"/"+pass, true, "sensitive-failed-write")
 	}
 }
+
+// C09 across connections of one client: a connection dies in the middle of a multi-chunk SASL exchange; on the next
+// connection nothing of the old exchange may be written — the AUTHENTICATE lines of a connection are the mechanism
+// followed by the chunks of THIS exchange, and the first line of a connection is the start of registration.
+func init() {
+	runners["saslreconnect"] = func(c *Ctx, in map[string]string) {
+		hin := hexIn(in)
+		pass := strings.Repeat("p4ss", 200) // response of ~1100 bytes: three chunks
+		cl := girc.New(girc.Config{Server: "irc.example.org", Port: 6667, Nick: "me", User: "me", Name: "me", AllowFlood: true,
+			SASL: &girc.SASLPlain{User: "acct", Pass: pass}})
+		full := base64.StdEncoding.EncodeToString([]byte("acct\x00acct\x00" + pass))
+		round := func(dieAfterChunks int) (lines []string) {
+			cli, srv := net.Pipe()
+			ret := make(chan error, 1)
+			go func() { ret <- cl.MockConnect(cli) }()
+			rd := bufio.NewReader(srv)
+			chunks := 0
+			for {
+				srv.SetReadDeadline(time.Now().Add(2 * time.Second))
+				l, err := rd.ReadString('\n')
+				if err != nil {
+					break
+				}
+				l = strings.TrimRight(l, "\r\n")
+				lines = append(lines, l)
+				srv.SetWriteDeadline(time.Now().Add(2 * time.Second))
+				switch {
+				case strings.HasPrefix(l, "CAP LS"):
+					srv.Write([]byte(":srv CAP * LS :sasl=PLAIN\r\n"))
+				case strings.HasPrefix(l, "CAP REQ"):
+					srv.Write([]byte(":srv CAP * ACK :sasl\r\n"))
+				case l == "AUTHENTICATE PLAIN":
+					srv.Write([]byte("AUTHENTICATE +\r\n"))
+				case strings.HasPrefix(l, "AUTHENTICATE "):
+					chunks++
+					if dieAfterChunks > 0 && chunks >= dieAfterChunks {
+						srv.Close() // the link drops while the rest of the response is still queued
+						goto out
+					}
+					if len(l) < len("AUTHENTICATE ")+400 {
+						srv.Write([]byte(":srv 903 me :SASL authentication successful\r\n"))
+					}
+				case l == "CAP END":
+					srv.Write([]byte(":srv 001 me :Welcome\r\n"))
+					goto out
+				}
+			}
+		out:
+			cl.Close()
+			srv.Close()
+			select {
+			case <-ret:
+			case <-time.After(5 * time.Second):
+			}
+			return lines
+		}
+		_ = round(1)
+		second := round(0)
+		if len(second) == 0 || second[0] != "CAP LS 302" {
+			c.R.Violation("c09.stale_authenticate", hin, fmt.Sprintf("%.120q", second), "CAP LS 302 first",
+				"the second connection does not start with registration: a chunk of the previous connection's SASL response was written on it")
+		}
+		var got []string
+		for _, l := range second {
+			if strings.HasPrefix(l, "AUTHENTICATE ") && l != "AUTHENTICATE PLAIN" {
+				got = append(got, strings.TrimPrefix(l, "AUTHENTICATE "))
+			}
+		}
+		if strings.Join(got, "") != full {
+			c.R.Violation("c09.exact", hin, fmt.Sprintf("%d chunks, %d bytes", len(got), len(strings.Join(got, ""))), fmt.Sprintf("%d bytes", len(full)),
+				"on the second connection the concatenated AUTHENTICATE chunks differ from base64(user NUL user NUL pass)")
+		}
+		c.R.Count("saslreconnect", true, "sasl-reconnect")
+	}
+}
